@@ -11,7 +11,8 @@ func variantOpts(c *caseSpec) []Option {
 		opts = append(opts, Debug(true))
 	}
 	if c.stats {
-		opts = append(opts, Statistics(&Stats{}, "no match"))
+		// -prestats N: a Stats value that has been used before (its expression count is not zero)
+		opts = append(opts, Statistics(&Stats{ExprCnt: uint64(preStats)}, "no match"))
 	}
 	return opts
 }
